@@ -67,8 +67,8 @@ def register(w):
     register_wap(w)
     w.contract("pygopherd/gopherentry.py::GopherEntry.geturl", params={"defaulthost": "str", "defaultport": "int"}, modifies=[], raises={}, returns="str",
                ensures=["implies(not S.url_shape(self.selector), result == 'gopher://' + (defaulthost if self.host is None else self.host) + ':' + str(defaultport if self.port is None else self.port) + '/' + urllib.parse.quote(str(self.type) + self.selector, errors='surrogateescape'))"],
-               note="remote entries become gopher:// URLs; the host part is content and is NOT markup-safe by itself (callers escape the URL)",
-               props=["C13", "C06", "C05"])
+               note="remote entries become gopher:// URLs, whatever bytes the selector carries (never raises); the host part is content and is NOT markup-safe by itself (callers escape the URL)",
+               props=["C13", "C06", "C05", "C09", "C03", "C15"])
     w.contract("pygopherd/handlers/url.py::HTMLURLHandler.write", selfclass=["HTMLURLHandler"], params={"wfile": "obj:WFile"},
                requires=["S.url_shape(self.selector)"],
                modifies=["wfile.written"], raises={"OSError": True},
